@@ -18,7 +18,7 @@ const (
 
 var (
 	// (the resource type is a whole path segment: the start of the URL or a '/' comes before it)
-	urlRegexp        = regexp.MustCompile(fmt.Sprintf("(%s)/(%s)$", resourceTypePattern, resourceIDPattern))
+	urlRegexp        = regexp.MustCompile(fmt.Sprintf("(?:^|/)(%s)/(%s)$", resourceTypePattern, resourceIDPattern))
 	historyURLRegexp = regexp.MustCompile(fmt.Sprintf("(?:^|/)(%s)/(%s)/_history/(%s)$", resourceTypePattern, resourceIDPattern, versionIDPattern))
 )
 
